@@ -183,8 +183,13 @@ func VerifC11_routing() {
 	}
 	if vfChoice("render", 2) == 1 {
 		vfAssert(t.RegisterPropertyCallback(t, CB_AT_RENDER, CB_ON_CELL, mk("table-cell-render")) == nil, "register-ok")
-		vfAssert(t.RegisterPropertyCallback(r, CB_AT_RENDER_PRECELL, CB_ON_ITSELF, mk("row-pre-render")) == nil, "register-ok")
-		vfAssert(t.RegisterPropertyCallback(t, CB_AT_RENDER_POSTCELL, CB_ON_ITSELF, mk("table-post-render")) == nil, "register-ok")
+		if vfChoice("reg-col-cell", 2) == 1 {
+			vfAssert(t.RegisterPropertyCallback(t.Column(1), CB_AT_RENDER_PRECELL, CB_ON_CELL, mk("col1-cell-pre-render")) == nil, "register-ok")
+			vfAssert(t.RegisterPropertyCallback(t.Column(2), CB_AT_RENDER_POSTCELL, CB_ON_CELL, mk("col2-cell-post-render")) == nil, "register-ok")
+		} else {
+			vfAssert(t.RegisterPropertyCallback(r, CB_AT_RENDER_PRECELL, CB_ON_ITSELF, mk("row-pre-render")) == nil, "register-ok")
+			vfAssert(t.RegisterPropertyCallback(t, CB_AT_RENDER_POSTCELL, CB_ON_ITSELF, mk("table-post-render")) == nil, "register-ok")
+		}
 		t.InvokeRenderCallbacks()
 	}
 	if vfChoice("render", 2) == 1 {
